@@ -58,38 +58,112 @@ theorem resolver_errors :
 
 /-- `propertyTokenResolver` as `lookupProp` / `findProp` / `lineKV` have it: the argument is cut at the first `#`; the
 file is read line by line; only a line that contains `=` is an entry; it is split at its FIRST `=` and the left part is
-compared with the key by `==` (exact: no prefix, no trimming, no case folding); the first match returns the right part -/
+compared with the key by `==` (exact: no prefix, no trimming, no case folding); the first match returns the right part.
+Locals are printed by number in order of first appearance (x0 the argument, x1 file name, x2 the key, x3 ok, x6 the
+scanner, x7 the line, x8 its two parts), so renaming them does not disturb the pin. -/
 theorem property_lookup :
-    Gen.Config.propertyCut = "filename, property, ok := strings.Cut(in, \"#\")" ∧
-    Gen.Config.propertyLoop = ["for scanner.Scan()", "line := scanner.Text()", "if strings.Contains(line, \"=\") {",
-      "kv := strings.SplitN(line, \"=\", 2)", "if kv[0] == property {", "return kv[1], nil", "}", "}"] := ⟨rfl, rfl⟩
+    Gen.Config.propertyCut = "x1, x2, x3 := strings.Cut(x0, \"#\")" ∧
+    Gen.Config.propertyLoop = ["for x6.Scan()", "x7 := x6.Text()", "if strings.Contains(x7, \"=\") {",
+      "x8 := strings.SplitN(x7, \"=\", 2)", "if x8[0] == x2 {", "return x8[1], nil", "}", "}"] := ⟨rfl, rfl⟩
+
+/-- the shortcut hooks of core/import as `sinkMap` / the `plugin` case of `decode` have them: exactly the strings
+`stdout`, `stderr`, `stdin` name a sink plugin by themselves, any other string is the `file` sink with `path` that string; a
+list at a schedule position is `{type: composite, nested: <the list>}` -/
+theorem shortcuts_eq :
+    Gen.Config.sinkShortcutNames.map String.toList = ["stderr".toList, "stdin".toList, "stdout".toList] ∧
+    (∀ n, sinkNames.contains n = (Gen.Config.sinkShortcutNames.map String.toList).contains n) ∧
+    Gen.Config.sinkFallbackType = "file" ∧ Gen.Config.sinkFallbackEntries = ["path=data"] ∧
+    sinkMap "out.log".toList = [("type".toList, .str Gen.Config.sinkFallbackType.toList), ("path".toList, .str "out.log".toList)] ∧
+    Gen.Config.schedShortcutEntries = ["nested=data", "type=\"composite\""] := by
+  refine ⟨by decide, ?_, rfl, rfl, rfl, rfl⟩
+  intro n
+  simp only [sinkNames, Gen.Config.sinkShortcutNames, List.map, List.contains_cons, List.contains_nil, Bool.or_false]
+  cases h1 : n == "stdout".toList <;> cases h2 : n == "stderr".toList <;> cases h3 : n == "stdin".toList <;> rfl
 
 /-- the plugin hooks as the `plugin` case of `decode` has them: exactly one string `type` key (compared lower-cased), and
 the fillConf closure ALWAYS runs `config.DecodeAndValidate(confData, conf)` on the rest of the block — also when the rest
 is empty — and returns its error; `Hook` / `FactoryHook` hand that closure to `plugin.New` / `plugin.NewFactory` -/
 theorem plugin_fill :
-    Gen.Config.parseConfConds = ["!ok", "PluginNameKey == strings.ToLower(key)", "err != nil",
-      "len(names) == 0", "len(names) > 1"] ∧
-    Gen.Config.fillConfStmts = ["err := config.DecodeAndValidate(confData, conf)", "if err != nil", "return err"] ∧
-    Gen.Config.fillConfReturns = ["return err"] ∧
+    Gen.Config.parseConfConds = ["!x11", "PluginNameKey == strings.ToLower(x8)", "len(x7) == 0", "len(x7) > 1", "x5 != nil"] ∧
+    Gen.Config.fillConfStmts = ["x13 := config.DecodeAndValidate(x6, x12)", "if x13 != nil", "return x13"] ∧
+    Gen.Config.fillConfReturns = ["return x13"] ∧
     Gen.Config.pluginHookCalls = ["Hook: plugin.New(t, name, fillConf)", "FactoryHook: plugin.NewFactory(t, name, fillConf)"] :=
   ⟨rfl, rfl, rfl, rfl⟩
 
 /-- `DecodeAndValidate` = `Decode`, then (only without error) `Validate` — `settle` / `decodeAndValidate` -/
 theorem decode_then_validate :
-    Gen.Config.decodeAndValidateStmts = ["err := Decode(conf, result)", "if err != nil {", "return err", "}", "return Validate(result)"] ∧
-    Gen.Config.validateStmts = ["return errors.WithStack(defaultValidator.Struct(value))"] := ⟨rfl, rfl⟩
+    Gen.Config.decodeAndValidateStmts = ["x2 := Decode(x0, x1)", "if x2 != nil {", "return x2", "}", "return Validate(x1)"] ∧
+    Gen.Config.validateStmts = ["return errors.WithStack(defaultValidator.Struct(x0))"] := ⟨rfl, rfl⟩
 
-/-- the validator reads the `validate` tag; the repo's own validations (`min-time`, `endpoint` are the ones `tagFail`
-models) are registered under these names and decide as `tagFail` says (`min <= t`; `host:port` with an optional host) -/
+/-- the validator reads the `validate` tag; the repo's own validations are registered under these names -/
 theorem validator_table :
     Gen.Config.validateTagName = "validate" ∧
     Gen.Config.registeredValidations = [("min-time", "MinTimeValidation"), ("max-time", "MaxTimeValidation"),
       ("min-size", "MinSizeValidation"), ("max-size", "MaxSizeValidation"), ("endpoint", "EndpointStringValidation"),
-      ("url-path", "URLPathStringValidation")] ∧
-    Gen.Config.validationReturns = [("MinTimeValidation", "ok && min <= t"),
-      ("EndpointStringValidation", "err == nil && (host == \"\" || govalidator.IsHost(host)) && govalidator.IsPort(port)")] :=
-  ⟨rfl, rfl, rfl⟩
+      ("url-path", "URLPathStringValidation")] := ⟨rfl, rfl⟩
+
+/-- `EndpointStringValidation`, whatever its layout (single expression, early returns, renamed locals): host, port and
+error come from `net.SplitHostPort` of the value, and as a function of its four atomic conditions the result is
+`err == nil && (host == "" || IsHost(host)) && IsPort(port)` — `endpointShape`, what `endpointOk` computes.  An empty
+host does NOT excuse the port: `endpointShape true true _ false = false`. -/
+theorem endpoint_validation :
+    Gen.Config.vEndpointBinds = ["net.SplitHostPort(arg0)"] ∧
+    Gen.Config.vEndpointAtoms = ["call:govalidator.IsHost(net.SplitHostPort#0)",
+      "call:govalidator.IsPort(net.SplitHostPort#1)", "empty:net.SplitHostPort#0", "eqnil:net.SplitHostPort#2"] ∧
+    (∀ isHost isPort hostEmpty errNil,
+      Gen.Config.vEndpoint isHost isPort hostEmpty errNil = endpointShape errNil hostEmpty isHost isPort) ∧
+    (∀ isHost, endpointShape true true isHost false = false) := by
+  refine ⟨rfl, rfl, ?_, ?_⟩
+  · intro a b c d; cases a <;> cases b <;> cases c <;> cases d <;> rfl
+  · intro a; cases a <;> rfl
+
+/-- `MinTimeValidation` / `MaxTimeValidation` / `MinSizeValidation` / `MaxSizeValidation`: value (`#0`), bound (`#1`)
+and `ok` (`#2`) come from the helper; the result is `ok && bound <= value` resp. `ok && value <= bound` — `boundShape`,
+an INCLUSIVE bound, what `tagFail` computes for `.minTime` / `.maxTime` -/
+theorem bound_validations :
+    Gen.Config.vMinTimeBinds = ["getTimeForValidation(arg0.Field().Interface(), arg0.Param())"] ∧
+    Gen.Config.vMaxTimeBinds = ["getTimeForValidation(arg0.Field().Interface(), arg0.Param())"] ∧
+    Gen.Config.vMinSizeBinds = ["getSizeForValidation(arg0.Field().Interface(), arg0.Param())"] ∧
+    Gen.Config.vMaxSizeBinds = ["getSizeForValidation(arg0.Field().Interface(), arg0.Param())"] ∧
+    Gen.Config.vMinTimeAtoms = ["le:getTimeForValidation#1,getTimeForValidation#0", "var:getTimeForValidation#2"] ∧
+    Gen.Config.vMaxTimeAtoms = ["le:getTimeForValidation#0,getTimeForValidation#1", "var:getTimeForValidation#2"] ∧
+    Gen.Config.vMinSizeAtoms = ["le:getSizeForValidation#1,getSizeForValidation#0", "var:getSizeForValidation#2"] ∧
+    Gen.Config.vMaxSizeAtoms = ["le:getSizeForValidation#0,getSizeForValidation#1", "var:getSizeForValidation#2"] ∧
+    (∀ le ok, Gen.Config.vMinTime le ok = boundShape ok le ∧ Gen.Config.vMaxTime le ok = boundShape ok le ∧
+      Gen.Config.vMinSize le ok = boundShape ok le ∧ Gen.Config.vMaxSize le ok = boundShape ok le) ∧
+    (∀ ns i, tagFail (.minTime ns) (.int i) = !Gen.Config.vMinTime (decide (ns ≤ i)) true) ∧
+    (∀ ns i, tagFail (.maxTime ns) (.int i) = !Gen.Config.vMaxTime (decide (i ≤ ns)) true) := by
+  refine ⟨rfl, rfl, rfl, rfl, rfl, rfl, rfl, rfl, ?_, ?_, ?_⟩
+  · intro a b; cases a <;> cases b <;> exact ⟨rfl, rfl, rfl, rfl⟩
+  · intro ns i
+    have h : ∀ b, Gen.Config.vMinTime b true = boundShape true b := by intro b; cases b <;> rfl
+    simp [tagFail, h]
+  · intro ns i
+    have h : ∀ b, Gen.Config.vMaxTime b true = boundShape true b := by intro b; cases b <;> rfl
+    simp [tagFail, h]
+
+/-- the helpers: results are (actual, check, ok) in that order; `check` is parsed from the tag's parameter, `actual` is the
+field's value asserted to the type, `ok` the outcome of that assertion (a parameter that does not parse leaves `ok` false);
+x0 the value, x1 the tag's parameter, x2 actual (result #0), x3 check (result #1), x4 ok (result #2) -/
+theorem bound_helpers :
+    Gen.Config.timeHelperParams = ["x0 interface{}", "x1 string"] ∧
+    Gen.Config.timeHelperResults = ["x2 time.Duration", "x3 time.Duration", "x4 bool"] ∧
+    Gen.Config.timeHelperStmts = ["x3, x5 := time.ParseDuration(x1)", "if x5 != nil {", "return", "}",
+      "x2, x4 = x0.(time.Duration)", "return"] ∧
+    Gen.Config.sizeHelperParams = ["x0 interface{}", "x1 string"] ∧
+    Gen.Config.sizeHelperResults = ["x2 datasize.ByteSize", "x3 datasize.ByteSize", "x4 bool"] ∧
+    Gen.Config.sizeHelperStmts = ["x5 := x3.UnmarshalText([]byte(x1))", "if x5 != nil {", "return", "}",
+      "x2, x4 = x0.(datasize.ByteSize)", "return"] := ⟨rfl, rfl, rfl, rfl, rfl, rfl⟩
+
+/-- `URLPathStringValidation` is the match of the value against this regular expression (`urlPathOk` is its language:
+one or more `/segment`, segments non-empty, of the listed characters); a string validation of a non-string field fails -/
+theorem url_path_validation :
+    Gen.Config.vUrlPathBinds = [] ∧ Gen.Config.vUrlPathAtoms = ["call:pathRegexp.MatchString(arg0)"] ∧
+    (∀ m, Gen.Config.vUrlPath m = m) ∧
+    Gen.Config.urlPathRegexp = "^(/[a-zA-Z0-9._~!$&'()*+,;=:@%-]+)+$" ∧
+    Gen.Config.stringValidationWrapper = ["return func(x1 validator.FieldLevel) bool { if x2, x3 := x1.Field().Interface().(string); x3 { return x0(x2) } return false }"] := by
+  refine ⟨rfl, rfl, ?_, rfl, rfl⟩
+  intro m; cases m <;> rfl
 
 /-- the constraints of the component configs (`validate` struct tags), pinned: a tag that is dropped, renamed (`valid:`)
 or weakened in the source breaks this lemma; harness/cmd/c17 carries the same table and still generates the failing input -/
